@@ -238,7 +238,7 @@ def nodupVars (p : List Dec) : Bool := (p.map (·.var)).Nodup
 
 /-- phi on the final outputs -/
 def phiSolver (fam : Fam) (pooled : Bool) (primal : Option (Int × List Dec)) (interrupted : Bool)
-    (exact : Bool) (value : Option Int) (lb ub : Int) (sol : Option (List Dec)) : List String := Id.run do
+    (exact : Bool) (value : Option Int) (lb ub : Int) (sol : Option (List Dec)) (cutoffConfigured : Bool := false) : List String := Id.run do
   let P := fam.problem
   let opt : EInt := (fam.H 0 P.init).addI P.initVal
   let mut f : List String := []
@@ -263,6 +263,8 @@ def phiSolver (fam : Fam) (pooled : Bool) (primal : Option (Int × List Dec)) (i
     if !exact then f := "C01:uninterrupted run not reported exact" :: f
     if value != target then f := ((if primal.isSome then "C14" else "C01") ++ s!":final value {value} differs from the optimum {target}") :: f
     if value.isSome && ub != lb then f := "C02:after an uninterrupted run best_upper_bound() differs from the value" :: f
+    -- C05, last clause: in a run whose cutoff may have answered 'stop', is_exact is reported only with the optimum
+    if cutoffConfigured && exact && value != target then f := "C05:is_exact reported but the value is not the optimum" :: f
   else
     -- C05
     match target with
@@ -272,6 +274,14 @@ def phiSolver (fam : Fam) (pooled : Bool) (primal : Option (Int × List Dec)) (i
     | none => if value.isSome then f := "C05:value reported for an infeasible problem" :: f
     if exact && value != target then f := "C05:is_exact reported but the value is not the optimum" :: f
   return f
+
+/-- a solver run with the threshold cache / a dominance rule that ends with a wrong value or a wrong exactness claim also
+    breaks C09 (caching solvers return the same optimum) / C10 (the dominance checker never changes the optimum) -/
+def withFeatureFails (cache dominance : Bool) (fails : List String) : List String :=
+  let bad := fails.filter (fun s => (s.startsWith "C01:" || s.startsWith "C03:" || s.startsWith "C14:" || s.startsWith "C05:is_exact") &&
+    ((s.splitOn "final value").length > 1 || (s.splitOn "is_exact").length > 1 || (s.splitOn "not reported exact").length > 1))
+  fails ++ (if cache then bad.map (fun s => "C09:caching solver: " ++ s) else [])
+        ++ (if dominance then bad.map (fun s => "C10:solver with the dominance checker: " ++ s) else [])
 
 def failNote (fails : List String) : String :=
   if fails.isEmpty then "" else join (fails.map (fun s => "F:" ++ (s.splitOn ":").head! ++ " [" ++ s ++ "]"))
@@ -297,7 +307,7 @@ def seqEngine (c i : List String) : Option Res := do
             let ok := b2s mex == ex && mval == value && st.bestLb == lb && st.bestUb == ub && st.explored == explored
             (ok, if ok then "" else "final state differs", s!"{b2s mex} {optInt mval} {st.bestLb} {st.bestUb} {st.explored}")
         let interrupted := ex == "0"
-        let fails := phiSolver fam (cfg.kind == 2) cfg.primal interrupted (ex == "1") value lb ub sol
+        let fails := withFeatureFails cfg.cache fam.domRule.isSome (phiSolver fam (cfg.kind == 2) cfg.primal interrupted (ex == "1") value lb ub sol cfg.stopAt.isSome)
         pure { agree := agree, phi := fails.isEmpty, model := ms, note := failNote fails ++ (if agree then "" else " TAPE: " ++ why) }
       | _ => none
     | [["hang"]] | [["hang"], _] =>
@@ -332,7 +342,7 @@ def seqcutEngine (c i : List String) : Option Res := do
         for (ex, v, lb, ub, sol) in parsed do
           idx := idx + 1
           let interrupted := idx ≤ kmax && !ex
-          f := (phiSolver fam (cfg.kind == 2) cfg.primal interrupted ex v lb ub sol).map (fun s => s ++ s!" (cutoff at poll {idx})") ++ f
+          f := (phiSolver fam (cfg.kind == 2) cfg.primal interrupted ex v lb ub sol (idx ≤ kmax)).map (fun s => s ++ s!" (cutoff at poll {idx})") ++ f
         -- C19: monotone in k
         let lbs := parsed.map (fun (_, _, lb, _, _) => lb)
         let ubs := parsed.map (fun (_, _, _, ub, _) => ub)
